@@ -5,9 +5,10 @@
 -/
 import IbicusModel.Lemmas.Windows
 import IbicusModel.Lemmas.GenWindows
+import IbicusModel.Lemmas.Skeleton
 
 namespace Props.C07
-open Model.Windows Lemmas.Windows
+open Model.Windows Lemmas.Windows Model.Skeleton Lemmas.Skeleton
 
 /-- `__attrs_post_init__` (days and years): for positive settings the normalised lengths are odd,
     positive, and `step ≤ length`; otherwise construction fails. -/
@@ -148,6 +149,85 @@ theorem yearCenters_nonempty_adjust (S : Int) (ys : List Int) (c : Int)
   simp only [List.any_map, List.any_eq_true, Function.comp, id] at hany
   obtain ⟨y, hy1, hy2⟩ := hany
   exact ⟨y, by simpa using hy2, hy1⟩
+
+
+/-! ### The write-back skeletons: every time step of the returned series is assigned
+
+For an arbitrary element type `α` and an arbitrary per-window function `f` (no assumption on `f` at all): whenever
+the loop completes, the result has the length of the corrected series and every position holds a written value
+(`some _`; `none` models the uninitialised memory `np.empty_like` returns). -/
+
+/-- `RunningWindowDebiaser.apply_location` / ISIMIP's running-window loop -/
+theorem applyLocationRW_all_some {α} (f : WinFn α) (L S h : Int) (dO dH dF : List Int)
+    (obs hist fut : List α) (out : List (Option α))
+    (hS : S = 2 * h + 1) (hh : 0 ≤ h) (hlen : dF.length = fut.length)
+    (hr : ∀ d ∈ dF, 0 ≤ d ∧ d ≤ 366)
+    (hrun : applyLocationRW f L S dO dH dF obs hist fut = .ok out) :
+    out.length = fut.length ∧ ∀ i, i < fut.length → ∃ v, out[i]? = some (some v) := by
+  apply runLoop_all_some _ _ _ _ _ hrun
+  intro i hi
+  obtain ⟨c, hc⟩ := use_cover_unique S h dF i hS hh (by omega) hr
+  have hcm : c ∈ (useCenters S dF).filter (fun c => (idxAdjust S dF c).contains i) := by
+    rw [hc]; exact List.mem_singleton.mpr rfl
+  obtain ⟨hc1, hc2⟩ := List.mem_filter.mp hcm
+  refine ⟨c, hc1, fun ws hws => ?_⟩
+  rw [windowWrites_keys _ _ _ _ _ _ _ _ _ _ _ hws]
+  exact List.contains_iff_mem.mp hc2
+
+/-- `DeltaChange.apply_location`: the corrected series is `obs` -/
+theorem applyLocationDC_all_some {α} (f : WinFn α) (L S h : Int) (dO dH dF : List Int)
+    (obs hist fut : List α) (out : List (Option α))
+    (hS : S = 2 * h + 1) (hh : 0 ≤ h) (hlen : dO.length = obs.length)
+    (hr : ∀ d ∈ dO, 0 ≤ d ∧ d ≤ 366)
+    (hrun : applyLocationDC f L S dO dH dF obs hist fut = .ok out) :
+    out.length = obs.length ∧ ∀ i, i < obs.length → ∃ v, out[i]? = some (some v) := by
+  apply runLoop_all_some _ _ _ _ _ hrun
+  intro i hi
+  obtain ⟨c, hc⟩ := use_cover_unique S h dO i hS hh (by omega) hr
+  have hcm : c ∈ (useCenters S dO).filter (fun c => (idxAdjust S dO c).contains i) := by
+    rw [hc]; exact List.mem_singleton.mpr rfl
+  obtain ⟨hc1, hc2⟩ := List.mem_filter.mp hcm
+  refine ⟨c, hc1, fun ws hws => ?_⟩
+  rw [windowWritesDC_keys _ _ _ _ _ _ _ _ _ _ _ hws]
+  exact List.contains_iff_mem.mp hc2
+
+/-- the CDFt / QDM loop over year windows of the future period, for every set of years present -/
+theorem applyYears_all_some {α} (g : YearFn α) (L S h : Int) (years : List Int)
+    (fut : List α) (out : List (Option α))
+    (hS : S = 2 * h + 1) (hh : 0 ≤ h) (hlen : years.length = fut.length)
+    (hrun : applyYears g L S years fut = .ok out) :
+    out.length = fut.length ∧ ∀ i, i < fut.length → ∃ v, out[i]? = some (some v) := by
+  apply runLoop_all_some _ _ _ _ _ hrun
+  intro i hi
+  have hi' : i < years.length := by omega
+  obtain ⟨c, hc⟩ := years_cover_unique S h years years[i] hS hh (List.getElem_mem hi')
+  have hcm : c ∈ (yearCenters S years).filter (fun c => inBlock S c years[i]) := by
+    rw [hc]; exact List.mem_singleton.mpr rfl
+  obtain ⟨hc1, hc2⟩ := List.mem_filter.mp hcm
+  refine ⟨c, hc1, fun ws hws => ?_⟩
+  rw [yearWrites_keys _ _ _ _ _ _ _ hws]
+  have := (mem_indicesIn years (yearsAdjusted S c) i).mpr ⟨hi', (mem_yearsAdjusted S c _).mpr hc2⟩
+  exact this
+
+/-- ISIMIP month mode: every time step whose month is in 1..12 is assigned -/
+theorem applyLocationMonths_all_some {α} (f : WinFn α) (mO mH mF : List Int)
+    (obs hist fut : List α) (out : List (Option α))
+    (hlen : mF.length = fut.length) (hr : ∀ m ∈ mF, 1 ≤ m ∧ m ≤ 12)
+    (hrun : applyLocationMonths f mO mH mF obs hist fut = .ok out) :
+    out.length = fut.length ∧ ∀ i, i < fut.length → ∃ v, out[i]? = some (some v) := by
+  apply runLoop_all_some _ _ _ _ _ hrun
+  intro i hi
+  have hi' : i < mF.length := by omega
+  have hb := hr _ (List.getElem_mem hi')
+  refine ⟨mF[i], (mem_arange1 _ _ _).mpr (by omega), fun ws hws => ?_⟩
+  rw [monthWrites_keys _ _ _ _ _ _ _ _ _ hws, mem_whereTrue]
+  refine ⟨by simpa using hi', ?_⟩
+  simp [List.getD_eq_getElem?_getD, List.getElem?_map, List.getElem?_eq_getElem hi']
+
+-- non-vacuity: a concrete run of the skeleton (S = 3, L = 5, six steps over days 2..4 of two years)
+example : applyLocationRW (α := Int) (fun _ _ x _ _ _ => .ok (x.map (· + 100))) 5 3 [2, 3, 4] [2, 3, 4]
+    [2, 3, 4, 2, 3, 4] [1, 2, 3] [1, 2, 3] [10, 20, 30, 40, 50, 60]
+    = .ok [some 110, some 120, some 130, some 140, some 150, some 160] := by decide
 
 /-! ### Non-vacuity and the defects that were repaired (F2, F13) -/
 
